@@ -542,7 +542,8 @@ impl AsmParser {
                 }
                 TokenKind::Lit(_) => {
                     let val = self.expect_lit(Bits::Signed(bits))?;
-                    let label = Label::Ref(self.line + 1 + val);
+                    // Offset may be negative, so its two's complement must wrap
+                    let label = Label::Ref(self.line.wrapping_add(1).wrapping_add(val));
                     Ok(label)
                 }
                 _ => {
